@@ -140,9 +140,11 @@ def case_b(case):
     ir = IR(P.layout)
     I = new_interp(P)
     res = {"paths": 0, "violations": [], "case": list(case)}
-    cfg = {"plain": {}, "no_pointer_slice": {"no_pointer_slice": True}, "prefix": {"prefix": "OP"}, "override": {}, "override_readonly": {},
+    cfg = {"plain": {}, "no_pointer_slice": {"no_pointer_slice": True}, "prefix": {"prefix": "OP"}, "override": {}, "override_readonly": {}, "keyword_field": {},
            "py_bytes": {"type_mappings": {"Vec<u8>": "bytes"}}}[cfgname]
     overridden = cfgname.startswith("override")
+    # (round n) a member whose Rust name is a keyword of target languages (Swift escapes it in the property, not in the initialiser)
+    fname = "default" if cfgname == "keyword_field" else "f"
 
     def decorators():
         if not overridden:
@@ -170,9 +172,9 @@ def case_b(case):
         lg = bharness.make_lang(I, lang, cfg)
         generics = ["T"] if base == "generic" else []
         if container == "struct":
-            pd = ir.parsed_data(structs=[ir.struct("S", [ir.field("keep", ir.special("Bool")), ir.field("f", ty, has_default=hd, decorators=decorators())], generics=generics)])
+            pd = ir.parsed_data(structs=[ir.struct("S", [ir.field("keep", ir.special("Bool")), ir.field(fname, ty, has_default=hd, decorators=decorators())], generics=generics)])
         elif container == "struct_variant":
-            pd = ir.parsed_data(enums=[ir.enum_alg("E", [ir.v_unit("U"), ir.v_anon("V", [ir.field("keep", ir.special("Bool")), ir.field("f", ty, has_default=hd, decorators=decorators())])], generics=generics)])
+            pd = ir.parsed_data(enums=[ir.enum_alg("E", [ir.v_unit("U"), ir.v_anon("V", [ir.field("keep", ir.special("Bool")), ir.field(fname, ty, has_default=hd, decorators=decorators())])], generics=generics)])
         elif container == "newtype_variant":
             pd = ir.parsed_data(enums=[ir.enum_alg("E", [ir.v_unit("U"), ir.v_tuple("V", ty)], generics=generics)])
         else:
@@ -213,7 +215,7 @@ def case_b(case):
                     fields = ts_variant_fields(sk)
             if not fields:
                 res.setdefault("inconclusive", []).append("could not extract the member list from: %r" % sk.text[:300]); continue
-            f = [x for x in fields if sk.str(x.ident) in ("f", "F")]
+            f = [x for x in fields if sk.str(x.ident) in (fname, fname.capitalize())]
             if not f:
                 res["violations"].append({"kind": "member-missing", "text": sk.text[:400]}); continue
             f = f[0]
@@ -223,6 +225,17 @@ def case_b(case):
             problems = []
             if got_marker != want_marker:
                 problems.append("marker %s, expected %s" % (got_marker, want_marker))
+            if lang == "swift":
+                # the initialiser takes the member with the same optional marker as the property ("? suffix in property and init")
+                import re as _re
+                inits = [mm.group(1) for mm in _re.finditer(r"^\tpublic init\(([^\n]*)\) \{$", sk.text, _re.M)]
+                pars = [q for ps in inits for q in _re.split(r", (?=`?\w+`?: )", ps) if _re.match(r"`?%s`?: " % fname, q)]
+                if not pars:
+                    problems.append("no initialiser parameter for the member")
+                for q in pars:
+                    if q.endswith("?") != want_marker:
+                        problems.append("initialiser parameter `%s`, expected marker %s" % (q, want_marker))
+                        res.setdefault("init_param", q)
             if lang == "go":
                 if f.omitempty != want_marker:
                     problems.append("omitempty %s" % f.omitempty)
@@ -241,7 +254,7 @@ def case_b(case):
             elif tt != exp_t and not (lang == "go" and tt == exp_t.lstrip("*")):
                 problems.append("type text %r, format_type gives %r" % (tt, exp_t))
             if problems:
-                res["violations"].append({"kind": "field", "has_default": hdv, "problems": problems, "line": f.raw})
+                res["violations"].append({"kind": "field", "has_default": hdv, "problems": problems, "line": f.raw, "init_param": res.pop("init_param", None)})
         else:
             # newtype payload / alias: the full translated type must occur; optional payloads must carry the marker of format_type
             if full_type not in sk.text:
@@ -287,10 +300,11 @@ def render_b(case, hd):
     if cfgname.startswith("override"):
         d += '#[typeshare(%s(%stype = "Ovr"))] ' % (lang, "readonly, " if cfgname == "override_readonly" else "")
     other = "#[typeshare]\npub struct Other { pub x: u32 }\n"
+    fn = "default" if cfgname == "keyword_field" else "f"
     if container == "struct":
-        return other + "#[typeshare]\npub struct S%s { pub keep: bool, %spub f: %s }\n" % (g, d, t)
+        return other + "#[typeshare]\npub struct S%s { pub keep: bool, %spub %s: %s }\n" % (g, d, fn, t)
     if container == "struct_variant":
-        return other + '#[typeshare]\n#[serde(tag = "type", content = "content")]\npub enum E%s { U, V { keep: bool, %sf: %s } }\n' % (g, d, t)
+        return other + '#[typeshare]\n#[serde(tag = "type", content = "content")]\npub enum E%s { U, V { keep: bool, %s%s: %s } }\n' % (g, d, fn, t)
     if container == "newtype_variant":
         return other + '#[typeshare]\n#[serde(tag = "type", content = "content")]\npub enum E%s { U, V(%s) }\n' % (g, t)
     return other + "#[typeshare]\npub type A%s = %s;\n" % (g, t)
@@ -318,6 +332,9 @@ def run(rep, tier, only=None):
                     b_cases.append((lang, "struct", base, shape, "no_pointer_slice"))
                 if lang in ("swift", "kotlin"):
                     b_cases.append((lang, "struct", "user", shape, "prefix"))
+        for shape in SHAPES:
+            for cont in ("struct", "struct_variant"):
+                b_cases.append((lang, cont, "bool", shape, "keyword_field"))
         if lang == "python":
             # types with a custom (de)serialiser: the Optional marker lives inside Annotated[..]
             for shape in SHAPES:
@@ -331,7 +348,7 @@ def run(rep, tier, only=None):
             if lang == "typescript":
                 b_cases += [(lang, "struct", "string", shape, "override_readonly") for shape in SHAPES]
     rep.bounds = {"parser": "the word `default` (7 symbolic chars) and the attribute name (5 symbolic chars) in %d attribute arrangements x struct / struct variant x %d type shapes" % (len(ARRANGEMENTS), len(TYPES_P)),
-                  "back ends": "6 languages x {struct, struct variant, newtype variant, alias} x 8 base types x {T, Option<T>, Option<Option<T>>} x symbolic has_default; plus Go no_pointer_slice, Swift/Kotlin prefix and per-language type overrides on the field"}
+                  "back ends": "6 languages x {struct, struct variant, newtype variant, alias} x 8 base types x {T, Option<T>, Option<Option<T>>} x symbolic has_default; plus Go no_pointer_slice, Swift/Kotlin prefix and per-language type overrides on the field; a member named `default` (keyword of Swift / Go); Swift: the initialiser parameter carries the same marker as the property"}
     rep.outside = ["serde(default = \"path\") (documented as not making the field optional)", "the text of a decorator-driven type override (only the optional marker of an overridden field is checked)"]
     rep.assumptions = ["the translated type of the unwrapped member is taken from the same back end's format_type (consistency oracle); the marker rule is independent"]
     reported = set()
@@ -396,11 +413,13 @@ def run(rep, tier, only=None):
                 real = nat.ask({"op": "generate", "lang": case[0], "files": [{"source": src}], "config": cfg})
                 rep.validated += 1
                 line = v.get("line")
-                if "out" in real and (line is None or line in real["out"].get("", "")):
+                import re as _re
+                init_ok = v.get("init_param") is None or _re.search(r"public init\([^\n]*%s(?:, |\))" % _re.escape(v["init_param"]), real.get("out", {}).get("", "")) is not None
+                if "out" in real and (line is None or line in real["out"].get("", "")) and init_ok:
                     reported.add(key)
                     rep.violation(sig, "%s %s member `%s %s`%s: %s -> %s" % (case[0], case[1], case[3], case[2], " with serde(default)" if v.get("has_default") else "",
                                                                       "; ".join(v.get("problems", [v["kind"]])), (line or "").strip()),
-                                  {"source": src, "lang": case[0], "config": cfg, "line": line, "half": "backend"})
+                                  {"source": src, "lang": case[0], "config": cfg, "line": line, "half": "backend", "init_param": v.get("init_param")})
                 elif "out" not in real:
                     reported.add(key)
                     rep.violation(dict(sig, native="no-output"), "%s: real library fails on `%s`: %s" % (case[0], src.replace("\n", " "), str(real)[:200]), {"source": src, "lang": case[0], "config": cfg, "half": "backend"})
@@ -423,4 +442,7 @@ def replay(case):
     rep.close()
     out = r.get("out", {}).get("", "")
     print(out[:800] if out else r)
+    import re as _re
+    if c.get("init_param") and not _re.search(r"public init\([^\n]*%s(?:, |\))" % _re.escape(c["init_param"]), out):
+        return 0
     return 1 if (c.get("line") is None or c["line"] in out) else 0
